@@ -9,6 +9,7 @@ package sched
 
 import (
 	"fmt"
+	"runtime"
 	"sync"
 )
 
@@ -18,6 +19,7 @@ type Blocker interface {
 }
 
 type thread struct {
+	gid      int64 // runtime id of the goroutine that carries the thread
 	id       int
 	wake     chan struct{}
 	kind     string
@@ -42,6 +44,9 @@ type Exec struct {
 	Choices  []int
 	Deadlock bool
 	Diverged string // non-empty: replay of the prefix met an out-of-range choice (hard harness error)
+	// Foreign: a scheduling point was reached by a goroutine that is not one of the scheduler's threads (the code
+	// under test started goroutines of its own). Such goroutines run freely; their interleavings are not enumerated.
+	Foreign bool
 }
 
 var (
@@ -140,6 +145,11 @@ func Point(kind string, obj Blocker) {
 		return
 	}
 	t := cur
+	if t == nil || t.gid != goid() {
+		// not the scheduler's running thread: a goroutine started by the code under test. It is not scheduled.
+		exec.Foreign = true
+		return
+	}
 	t.kind, t.obj = kind, obj
 	next := pick(t, kind)
 	if next == nil {
@@ -193,6 +203,7 @@ func Run(bodies []func(), choicePrefix []int) *Exec {
 		t := t
 		join.Add(1)
 		go func() {
+			setGid(t)
 			park(t)
 			markStarted(t)
 			t.fn()
@@ -227,6 +238,26 @@ func setup(bodies []func(), choicePrefix []int) {
 
 //go:norace
 func markStarted(t *thread) { t.started = true }
+
+//go:norace
+func setGid(t *thread) { t.gid = goid() }
+
+// goid returns the runtime id of the calling goroutine (parsed from the stack header; about a microsecond).
+//
+//go:norace
+func goid() int64 {
+	var buf [40]byte
+	n := runtime.Stack(buf[:], false)
+	// "goroutine 123 [running]:"
+	var id int64
+	for _, c := range buf[10:n] {
+		if c < '0' || c > '9' {
+			break
+		}
+		id = id*10 + int64(c-'0')
+	}
+	return id
+}
 
 //go:norace
 func doneChan() chan struct{} { return done }
